@@ -93,6 +93,16 @@ type C06Late struct {
 	Names []string `json:"names"`
 }
 
+// C06AugNode is a node an augment of the mutated variant adds (directly, or as the copy of a
+// grouping node through a uses statement in the augment body): it and everything below it belong to
+// the namespace of the augmenting module.
+type C06AugNode struct {
+	Module string   `json:"module"`
+	Path   []string `json:"path"`
+	NS     string   `json:"ns"`
+	IM     string   `json:"im"`
+}
+
 // C06Case is one generated case.
 type C06Case struct {
 	Names, Texts       []string // base variant (no augment, no deviation)
@@ -102,6 +112,7 @@ type C06Case struct {
 	Expect             []C06Rec
 	Late               *C06Late
 	MutKinds           []string // what the mutated variant applies
+	AugNodes           []C06AugNode
 	MutProps           []string // "deviate-kind target-keyword property" of every deviate property written
 	Groupings          int
 	// ExtrasNodes: nodes of the expansion with a non-empty Extra / Exts prediction; ExtrasUses: uses
@@ -1577,10 +1588,8 @@ func (g *c06) mutate(c *C06Case) {
 	extra := map[*Module][]*Node{}
 	var zmut *Module
 	var touchedPaths [][]string // module name first
-	hostFor := func(target *Module) (*Module, string) {
-		if g.chance(0.5) {
-			return target, target.Prefix
-		}
+	var hostFor func(target *Module) (*Module, string)
+	zmutFor := func(target *Module) (*Module, string) {
 		if zmut == nil {
 			zmut = &Module{Name: "zmut", Prefix: "pz", Namespace: "urn:zmut", ImportPrefix: map[*Module]string{}}
 			zmut.Body = &Node{Kw: "module", Arg: "zmut"}
@@ -1591,6 +1600,12 @@ func (g *c06) mutate(c *C06Case) {
 			zmut.ImportPrefix[target] = "t" + target.Name
 		}
 		return zmut, zmut.ImportPrefix[target]
+	}
+	hostFor = func(target *Module) (*Module, string) {
+		if g.chance(0.5) {
+			return target, target.Prefix
+		}
+		return zmutFor(target)
 	}
 	pathText := func(steps []c06Step, pfx string, afterFix bool) string {
 		var sb strings.Builder
@@ -1662,10 +1677,94 @@ func (g *c06) mutate(c *C06Case) {
 				default:
 					continue
 				}
+				// most augments come from another module, so that the namespace of what they add differs
+				// from the target's
+				if g.chance(0.6) {
+					host, pfx = zmutFor(t.mod)
+				}
 				st = &Node{Kw: "augment", Arg: pathText(t.steps, pfx, false)}
 				g.seq++
 				l := g.add(st, "leaf", fmt.Sprintf("aug%d", g.seq))
 				g.add(l, "type", "string")
+				added := []string{l.Arg}
+				// names the target already has
+				taken := map[string]bool{}
+				for _, o := range nodes {
+					op := stepsPath(o.steps, true)
+					tpp := stepsPath(t.steps, true)
+					if o.mod == t.mod && len(op) > len(tpp) && hasPrefixPath(op, tpp) {
+						taken[op[len(tpp)]] = true
+					}
+				}
+				// uses statements written directly in the augment body, and below a container the augment
+				// writes: groupings of the target's own module (and its submodules), of a third module,
+				// of the augmenting module itself. The copies belong to the augmenting module's namespace.
+				type cand struct {
+					ref string
+					gr  *Node
+				}
+				var cands []cand
+				for _, name := range c06GroupNames {
+					if d, _ := c06Top(t.mod, "grouping", name); d != nil && g.done[d] {
+						cands = append(cands, cand{pfx + ":" + name, d}, cand{pfx + ":" + name, d})
+					}
+				}
+				if host == zmut && zmut != nil {
+					for _, third := range g.set.Mods {
+						if third.Sub || third == t.mod || third == zmut {
+							continue
+						}
+						for _, name := range c06GroupNames {
+							if d, _ := c06Top(third, "grouping", name); d != nil && g.done[d] {
+								_, tpfx := zmutFor(third)
+								cands = append(cands, cand{tpfx + ":" + name, d})
+								break
+							}
+						}
+					}
+					zg := declared(zmut.Body, "grouping", "zg")
+					if zg == nil {
+						zg = g.add(zmut.Body, "grouping", "zg")
+						g.add(g.add(zg, "leaf", "zgl"), "type", "string")
+						g.add(g.add(g.add(zg, "container", "zgc"), "leaf", "zgd"), "type", "string")
+					}
+					cands = append(cands, cand{g.pick([]string{"zg", "pz:zg"}), zg})
+				}
+				if len(cands) > 0 && g.chance(0.8) && t.n.Kw != "choice" {
+					cd := cands[g.r.Intn(len(cands))]
+					names := contributed(cd.gr, 0)
+					free := true
+					for _, nm := range names {
+						if taken[nm] {
+							free = false
+						}
+					}
+					if free {
+						u := g.add(st, "uses", cd.ref)
+						u.Uses = cd.gr
+						added = append(added, names...)
+						c.MutKinds = append(c.MutKinds, "augment with uses directly in its body")
+					}
+					if g.chance(0.5) {
+						cd2 := cands[g.r.Intn(len(cands))]
+						g.seq++
+						w := g.add(st, "container", fmt.Sprintf("augc%d", g.seq))
+						u := g.add(w, "uses", cd2.ref)
+						u.Uses = cd2.gr
+						added = append(added, w.Arg)
+					}
+				}
+				ns, im := host.Namespace, host.Name
+				if host.Sub {
+					im = host.Owner.Name
+				}
+				for _, nm := range added {
+					pth := append(append([]string{}, stepsPath(t.steps, true)...), nm)
+					if t.n.Kw == "choice" {
+						pth = append(pth, nm)
+					}
+					c.AugNodes = append(c.AugNodes, C06AugNode{Module: t.mod.Name, Path: pth, NS: ns, IM: im})
+				}
 			case "not-supported":
 				st = &Node{Kw: "deviation", Arg: pathText(t.steps, pfx, true)}
 				g.add(st, "deviate", "not-supported")
